@@ -92,4 +92,18 @@ theorem donnanFd_fst_acc (f : TransFns Rat) (sq ratio : Rat) (oc : Bool) (groups
       rw [e]; grind
 
 
+/-- history of a surface whose sites are related to a kinetic reactant: a calculation starts from the stored site total
+`s` and reactant amount `m`; the reactant goes to `m'`, the engine adds `-prop·(m - m')` sites to the reaction, and the
+species of the completed calculation sum to `s'` within `tolS` (the site-balance gate) of that defined number -/
+def followsSteps (prop tolS : Rat) : Rat → Rat → List (Rat × Rat) → Prop
+  | _, _, [] => True
+  | s, m, st :: rest =>
+    (-tolS ≤ st.2 - (s - prop * (m - st.1)) ∧ st.2 - (s - prop * (m - st.1)) ≤ tolS) ∧ followsSteps prop tolS st.2 st.1 rest
+
+/-- the (reactant, sites) pair after the history -/
+def finalOf : Rat → Rat → List (Rat × Rat) → Rat × Rat
+  | s, m, [] => (m, s)
+  | _, _, st :: rest => finalOf st.2 st.1 rest
+
+
 end PhreeqcVerif.Surface
